@@ -12,6 +12,9 @@ Pool == {
   Rel(20, FALSE, FALSE, "corrupt", "match"),
   Rel(20, FALSE, FALSE, "badmember", "match"),
   Rel(20, FALSE, FALSE, "none", "match"),
+  Rel(20, FALSE, FALSE, "otherarch", "match"),
+  Rel(20, FALSE, FALSE, "archfirst", "match"),
+  Rel(30, FALSE, FALSE, "otherarch", "match"),
   Rel(30, TRUE,  FALSE, "good", "match"),
   Rel(30, FALSE, TRUE,  "good", "match"),
   Rel(30, FALSE, FALSE, "none", "match"),
